@@ -158,15 +158,17 @@ fn writer_body_with(ch: &Chooser, scripts: &[WScript], pools: &[usize], ends: &[
         injected_seen: bool,
         other_err: Option<String>,
         finished_ok: bool,
+        at_return: Vec<u8>,
     }
 
     let sink2 = sink.clone();
+    let sink3 = sink.clone();
     let ops = script.ops.clone();
     let payload = script.payload;
     let mut rtc = RtConfig::new(pool, cost);
     rtc.sticky_workers = STICKY.with(|k| k.get());
     let caught = vmc::catch(|| vrt::run(ch, rtc, move || {
-        let mut log = Log { results: Vec::new(), injected_seen: false, other_err: None, finished_ok: false };
+        let mut log = Log { results: Vec::new(), injected_seen: false, other_err: None, finished_ok: false, at_return: Vec::new() };
         let mut w = bgzf::io::MultithreadedWriter::new(sink2);
         let mut off = 0u64;
         let mut failed = false;
@@ -213,6 +215,8 @@ fn writer_body_with(ch: &Chooser, scripts: &[WScript], pools: &[usize], ends: &[
                 drop(w);
             }
         }
+        // what the destination holds at the moment finish()/drop returned to the caller
+        log.at_return = sink3.bytes();
         log
     }));
     let (log, info) = match caught {
@@ -252,6 +256,14 @@ fn writer_body_with(ch: &Chooser, scripts: &[WScript], pools: &[usize], ends: &[
             }
             if log.results.iter().any(|r| r.1.is_err()) {
                 return Err(Violation::new("writer fault=none symptom=unexpected-error", describe(), "all calls Ok", format!("{:?}", log.results)));
+            }
+            if log.at_return != bytes {
+                return Err(Violation::new(
+                    "writer fault=none symptom=destination-incomplete-when-finish-or-drop-returns",
+                    format!("{} schedule: {}", describe(), info.schedule_string()),
+                    format!("all {} bytes at the destination when the call returns", bytes.len()),
+                    format!("{} bytes then, {} bytes after the background thread ended", log.at_return.len(), bytes.len()),
+                ));
             }
             if bytes != script.reference {
                 return Err(Violation::new(
@@ -766,6 +778,10 @@ fn main() {
             mk("staging-full", vec![W(65496), W(5)]),
             mk("one-block", vec![W(5)]),
             mk("empty", vec![]),
+            // a write that ends exactly where the staging buffer is full, then more
+            mk("exact-fill-then-more", vec![W(65495), W(5)]),
+            // a large write arriving while a few bytes are staged (no flush in between)
+            mk("small-then-large", vec![W(11), W(65495 + 3515)]),
         ];
         let pools = [2usize, 1, 3];
 
@@ -876,6 +892,9 @@ fn main() {
         // seeks by uncompressed offset through a gzi: mid-block, first byte of a block, end, back
         cases.push(make_case(&[3, 5, 2], true, Corrupt::None, vec![Read(1), SeekIndex(4), Read(2), SeekIndex(3), Read(9), SeekIndex(10), Read(1), SeekIndex(0), ReadToEnd]));
         cases.push(make_case(&[3, 0, 4], false, Corrupt::None, vec![SeekIndex(3), Read(2), SeekIndex(7), Read(1), SeekIndex(2), ReadToEnd]));
+        // more empty members in a row than the reader has buffers (pool + 2), then data (concatenated streams)
+        cases.push(make_case(&[3, 0, 0, 0, 0, 0, 0, 4], true, Corrupt::None, vec![ReadToEnd]));
+        cases.push(make_case(&[3, 0, 0, 0, 0, 0, 0, 4, 0, 0, 0, 0, 0, 0, 2], true, Corrupt::None, vec![ReadExact(4), ReadExact(4), Read(3), Finish]));
         // read_exact across blocks that asks for more than the stream holds (with and without the EOF
         // marker): UnexpectedEof like the single-threaded reader, never a short Ok
         cases.push(make_case(&[3, 5, 2], true, Corrupt::None, vec![ReadExact(2), ReadExact(9), Read(1)]));
